@@ -157,12 +157,10 @@ fn c03_cell(run: &mut Run, l: usize, f: Form, cell: &lt::Cell, bits: u16, h: Han
                 *skipped += 1;
                 return;
             }
-            // CapsLock is an exact Shift inversion on a cased-letter key (C10), so there
-            // CapsLock+AltGr is the Shift+AltGr level, which the statement leaves unconstrained
-            if fa.caps && oracle_cased(cell) {
-                *skipped += 1;
-                return;
-            }
+            // CapsLock+AltGr on a cased-letter key stays judged as the AltGr level ("whatever the
+            // lock ... flags are"): reading it as the unconstrained Shift+AltGr level (because
+            // C10 makes CapsLock a Shift inversion there) would let "CapsLock+AltGr+M types M
+            // instead of µ" through (seeded C03-B); see preserving/kept-strict/2D-cand6.
             let here_without = out(l, f, k, bits & !(M_RALT | M_LALT | M_LCTRL | M_RCTRL), h);
             let distinct_here = got != here_without;
             if !has_level && !distinct_here {
